@@ -21,21 +21,27 @@ package main
 import (
 	"bufio"
 	"bytes"
+	"compress/gzip"
 	"context"
 	"crypto/sha1"
 	"encoding/json"
 	"fmt"
+	"io"
 	"net"
+	"net/http"
+	"net/http/httptest"
 	"os"
 	"sort"
 	"strings"
 	"sync"
+	"sync/atomic"
 	"time"
 
 	"github.com/hprose/hprose-golang/v3/rpc/core"
 	"verif/lib/report"
 	"verif/lib/shard"
 	"verif/mc/netlab"
+	"verif/mc/rpclab"
 )
 
 const ID = "C12"
@@ -205,6 +211,41 @@ func enumerate(group string, thorough bool) []Scenario {
 				out = append(out, s)
 			}
 		}
+	case "redirect":
+		// Declared carries the status of the redirect the client meets on its way to the service
+		for _, code := range []int{301, 302, 303, 307, 308} {
+			for _, l := range []int{0, 1, 24, 4096, 70000} {
+				s := base
+				s.Len, s.Pat, s.Declared = l, 2, code
+				s.Variant = fmt.Sprintf("redirect-%d", code)
+				out = append(out, s)
+			}
+		}
+	case "udp6":
+		// Actual: bytes of body in the datagram; Declared: what its header says. Over IPv6 a datagram carries up
+		// to 65527 bytes, more than over IPv4.
+		for _, a := range []int{1024, 65498, 65499, 65500, 65507, 65508, 65519} {
+			for _, d := range []int{a, a - 1, 65499, 65491, 1024} {
+				if d == a && len(out) > 0 && out[len(out)-1].Actual == a && out[len(out)-1].Declared == d {
+					continue
+				}
+				s := base
+				s.Declared, s.Actual, s.Pat = d, a, 2
+				s.Variant = "declared=actual"
+				if d != a {
+					s.Variant = "declared<actual"
+				}
+				out = append(out, s)
+			}
+		}
+	case "compressed":
+		for _, l := range []int{0, 1, 24, 200, 4096, 70000} {
+			for p := range patNames {
+				s := base
+				s.Len, s.Pat, s.Variant = l, p, "gzip-response"
+				out = append(out, s)
+			}
+		}
 	case "alias":
 		for _, l := range []int{1, 13, 255, 256, 1024, 4096, 65000} {
 			s := base
@@ -333,6 +374,12 @@ func groups() []string {
 	for _, l := range netlab.Links {
 		g = append(g, "alias/"+l.Name+"/response")
 	}
+	// the two HTTP client transports behind a front that redirects to the service
+	g = append(g, "redirect/http/request", "redirect/fasthttp-netsrv/request")
+	// the two HTTP client transports with compression switched on, against a server that compresses
+	g = append(g, "compressed/http/response", "compressed/fasthttp-netsrv/response")
+	// the udp server on an IPv6 socket, where datagrams can be longer than its documented capacity
+	g = append(g, "udp6/udp/server")
 	for _, part := range []string{"flip", "len", "struct"} {
 		for _, c := range serverCells {
 			g = append(g, part+"/"+c+"/server")
@@ -602,6 +649,12 @@ func (x *executor) run(sc Scenario) {
 		x.pipe(sc, link, false)
 	case sc.Part == "alias":
 		x.alias(sc, link)
+	case sc.Part == "redirect":
+		x.redirect(sc, link)
+	case sc.Part == "compressed":
+		x.compressed(sc, link)
+	case sc.Part == "udp6":
+		x.udp6(sc)
 	case sc.Side == "server":
 		x.serverSide(sc, link)
 	default:
@@ -935,6 +988,188 @@ func (x *executor) alias(sc Scenario, link netlab.Link) {
 }
 
 // ---- reference readings ----
+
+// ---- part: a redirect on the way ----
+
+// redirect: the client's URL names a front that answers with a redirect (status sc.Declared) to the real
+// service. Whatever the client does with it (follow, refuse), the service is never handed bytes other than
+// the ones the caller submitted, and a call that succeeds carries the answer to those bytes.
+func (x *executor) redirect(sc Scenario, link netlab.Link) {
+	svc := core.NewService()
+	rec := &netlab.Recorder{Respond: ack}
+	svc.Use(rec.Handler)
+	backend, err := netlab.StartServer("nethttp", svc, netlab.ServerOptions{})
+	if err != nil {
+		x.res.Infra = append(x.res.Infra, "redirect: backend: "+err.Error())
+		return
+	}
+	defer backend.Close()
+	ln, err := net.Listen("tcp", "127.0.0.1:0")
+	if err != nil {
+		x.res.Infra = append(x.res.Infra, "redirect: front: "+err.Error())
+		return
+	}
+	front := &http.Server{Handler: http.HandlerFunc(func(w http.ResponseWriter, r *http.Request) {
+		io.Copy(io.Discard, r.Body)
+		http.Redirect(w, r, "http://"+backend.Addr+"/", sc.Declared)
+	})}
+	go front.Serve(ln)
+	defer front.Close()
+	cli := netlab.NewClient(link.Client, "http://"+ln.Addr().String()+"/", 10*time.Second)
+	defer netlab.CloseClient(cli)
+	body := pattern(sc.Pat, sc.Len, link)
+	resp, cerr := netlab.Request(cli, body)
+	x.distinct(body, []byte(sc.Variant))
+	for _, e := range rec.Since(0) {
+		if !bytes.Equal(e.Request, body) {
+			x.res.violate(sc, sc.Variant, fmt.Sprintf("%s client, %d on the way: the caller submitted %d bytes %s, the service was handed %d bytes %s", link.Client, sc.Declared, len(body), show(body), len(e.Request), show(e.Request)))
+			return
+		}
+	}
+	switch {
+	case cerr != nil:
+		x.res.count("redirect|refused|" + sc.Variant)
+	case !bytes.Equal(resp, ack(body)):
+		x.res.violate(sc, sc.Variant, fmt.Sprintf("%s client, %d on the way: the call succeeds with %s, which is not the answer to the %d bytes submitted (%s)", link.Client, sc.Declared, show(resp), len(body), show(ack(body))))
+	default:
+		x.res.count("redirect|followed-with-the-request|" + sc.Variant)
+	}
+}
+
+// compressed: the client has compression switched on (SetCompression(true)) and the server answers with
+// Content-Encoding: gzip when the request allows it. The caller is handed the bytes the service produced, not
+// their compressed form.
+func (x *executor) compressed(sc Scenario, link netlab.Link) {
+	svc := core.NewService()
+	body := pattern(sc.Pat, sc.Len, link)
+	svc.Use(func(ctx context.Context, request []byte, next core.NextIOHandler) ([]byte, error) {
+		return append([]byte("produced:"), request...), nil
+	})
+	server := &http.Server{}
+	if err := svc.Bind(server); err != nil {
+		x.res.Infra = append(x.res.Infra, "compressed: "+err.Error())
+		return
+	}
+	inner := server.Handler
+	var zipped int32
+	server.Handler = http.HandlerFunc(func(w http.ResponseWriter, r *http.Request) {
+		if !strings.Contains(r.Header.Get("Accept-Encoding"), "gzip") {
+			inner.ServeHTTP(w, r)
+			return
+		}
+		rec := httptest.NewRecorder()
+		inner.ServeHTTP(rec, r)
+		for k, v := range rec.Header() {
+			if k != "Content-Length" {
+				w.Header()[k] = v
+			}
+		}
+		var buf bytes.Buffer
+		zw := gzip.NewWriter(&buf)
+		zw.Write(rec.Body.Bytes())
+		zw.Close()
+		w.Header().Set("Content-Encoding", "gzip")
+		w.Header().Set("Content-Length", fmt.Sprint(buf.Len()))
+		w.WriteHeader(rec.Code)
+		w.Write(buf.Bytes())
+		atomic.AddInt32(&zipped, 1)
+	})
+	ln, err := net.Listen("tcp", "127.0.0.1:0")
+	if err != nil {
+		x.res.Infra = append(x.res.Infra, "compressed: "+err.Error())
+		return
+	}
+	go server.Serve(ln)
+	defer server.Close()
+	cli := netlab.NewClient(link.Client, "http://"+ln.Addr().String()+"/", 10*time.Second)
+	defer netlab.CloseClient(cli)
+	type compressor interface{ SetCompression(bool) }
+	for _, name := range []string{"http", "fasthttp"} {
+		if t, ok := cli.GetTransport(name).(compressor); ok && t != nil {
+			t.SetCompression(true)
+		}
+	}
+	resp, cerr := netlab.Request(cli, body)
+	x.distinct(body, []byte(sc.Variant))
+	want := append([]byte("produced:"), body...)
+	switch {
+	case cerr != nil:
+		x.res.violate(sc, sc.Variant+"|not-delivered", fmt.Sprintf("%s client with compression on: a response of %d bytes fails: %v", link.Client, len(want), cerr))
+	case !bytes.Equal(resp, want):
+		x.res.violate(sc, sc.Variant+"|"+classify(resp, want, nil), fmt.Sprintf("%s client with compression on: the service produced %d bytes %s, the caller was handed %d bytes %s", link.Client, len(want), show(want), len(resp), show(resp)))
+	case atomic.LoadInt32(&zipped) > 0:
+		x.res.count("compressed|gzip-response-delivered-as-produced")
+	default:
+		x.res.count("compressed|client-did-not-ask-for-gzip")
+	}
+}
+
+// udp6: a raw peer sends one datagram with sc.Actual bytes of body whose header declares sc.Declared to a
+// service bound to an IPv6 socket. The service is handed the body only when the two agree, and then all of it.
+func (x *executor) udp6(sc Scenario) {
+	svc := core.NewService()
+	rec := &netlab.Recorder{Respond: ack}
+	svc.Use(rec.Handler)
+	uc, err := net.ListenUDP("udp6", &net.UDPAddr{IP: net.IPv6loopback})
+	if err != nil {
+		x.res.note("udp6: no IPv6 loopback here: " + err.Error())
+		return
+	}
+	uc.SetReadBuffer(4 << 20)
+	ctx, cancel := context.WithCancel(context.Background())
+	defer cancel()
+	if err := svc.BindContext(ctx, uc); err != nil {
+		x.res.Infra = append(x.res.Infra, "udp6: "+err.Error())
+		return
+	}
+	defer uc.Close()
+	c, err := net.DialUDP("udp6", nil, uc.LocalAddr().(*net.UDPAddr))
+	if err != nil {
+		x.res.Infra = append(x.res.Infra, "udp6: "+err.Error())
+		return
+	}
+	defer c.Close()
+	c.SetWriteBuffer(4 << 20)
+	body := pattern(sc.Pat, sc.Actual, netlab.Link{Name: "udp"})
+	w := append(rpclab.UDPHeader(sc.Declared, 7), body...)
+	if _, err := c.Write(w); err != nil {
+		x.res.count("udp6|datagram-not-sendable")
+		return
+	}
+	// a sentinel after it: when the sentinel has been answered the victim has been dealt with
+	c.Write(rpclab.UDPFrame(8, sentinel))
+	buf := make([]byte, 65536)
+	deadline := time.Now().Add(slack)
+	settled := false
+	for !settled && time.Now().Before(deadline) {
+		c.SetReadDeadline(time.Now().Add(500 * time.Millisecond))
+		n, err := c.Read(buf)
+		if err == nil && n >= 8 && bytes.Equal(buf[8:n], ack(sentinel)) {
+			settled = true
+		}
+	}
+	if !settled {
+		x.res.Infra = append(x.res.Infra, sc.String()+": the sentinel was not answered")
+		return
+	}
+	time.Sleep(20 * time.Millisecond)
+	x.distinct(w[:8], []byte(fmt.Sprint(sc.Actual)))
+	for _, e := range rec.Since(0) {
+		if bytes.Equal(e.Request, sentinel) {
+			continue
+		}
+		switch {
+		case sc.Declared != sc.Actual:
+			x.res.violate(sc, sc.Variant+"|"+classify(e.Request, body, nil), fmt.Sprintf("udp over IPv6: a datagram with %d bytes of body whose header declares %d was handed to the service as %d bytes", sc.Actual, sc.Declared, len(e.Request)))
+		case !bytes.Equal(e.Request, body):
+			x.res.violate(sc, sc.Variant+"|"+classify(e.Request, body, nil), fmt.Sprintf("udp over IPv6: a datagram with %d bytes of body was handed to the service as %d bytes %s", sc.Actual, len(e.Request), show(e.Request)))
+		default:
+			x.res.count("udp6|delivered-exactly")
+		}
+		return
+	}
+	x.res.count("udp6|refused")
+}
 
 func refSocketStream(b []byte) (bodies [][]byte) {
 	for len(b) >= 12 {
